@@ -19,7 +19,7 @@ OWN = {
             # distances are "from the plain transliteration" of THIS word: the memo entry a word's candidates come from is its own
             "memo_entry_is_keyed_by_the_word", "memo_entry_holds_direct_candidates_only",
             # "user entry before bundled entry": the user's list in use is the file as it can be read now
-            "file_newer_than_the_last_successful_load_is_read", "reloaded_context_equals_a_new_one", "reloaded_list_is_in_use",
+            "file_newer_than_the_last_successful_load_is_read", "reloaded_context_equals_a_new_one", "reloaded_list_is_in_use", "dictionary_word_is_ranked_by_its_edit_distance",
             "english_candidate_only_when_enabled_and_not_ansi",
             "english_candidate_is_last_and_is_the_typed_text", "no_candidate_twice"},
     "C08": {"suffix_forms_complete", "candidates_of_the_base_come_back_joined", "candidates_are_justified", "memo_entry_holds_direct_candidates_only", "memo_entry_is_keyed_by_the_word"},
